@@ -785,7 +785,7 @@ namespace c21_lltiming {
 
         Run( const Case& cc, verif::Report& rr )
             : c( cc ), rep( rr ), cf( configs()[ static_cast< std::size_t >( cc.cfg ) % configs().size() ] ), dev( cf.make() ), r( dev->rec() ), prop( prop_no() ),
-              excl_21b( prop_no() != 21 || verif::opt_has( "exclude", "F-21b" ) )
+              excl_21b( verif::opt_has( "exclude", "F-21b" ) )
         {
         }
 
